@@ -58,6 +58,16 @@ def check_copy(prop, rec, orig, copy, what, witness):
                 return bad(f"{what}/shared-objects", f"the copy's attribute .{attr} refers to a node object of the original")
     problems = S.audit(copy if copy.parent is None else S.root_of(copy), expr=_is_expr(copy))
     if problems:
+        try:
+            same_in_original = S.audit(orig if orig.parent is None else S.root_of(orig), expr=_is_expr(orig))
+        except Exception:
+            same_in_original = []
+        if same_in_original:
+            # a tree under construction (an operator still lacking an operand): the copy faithfully
+            # has the same hole; soundness is demanded of copies of sound trees
+            rec.arm("clone:copy-of-an-incomplete-tree")
+            return True
+    if problems:
         return bad(f"{what}/audit", "the copy is not structurally sound: " + problems[0])
     return True
 
